@@ -294,6 +294,50 @@ Proof.
   split; reflexivity.
 Qed.
 
+(* whatever its spelling / number of decimals, a parsed label overrides *)
+Lemma resolve_label_precedence_k s c :
+  0 < label_scale (nc_l_cpu_kind c) -> 0 < label_scale (nc_l_mem_kind c) ->
+  s_cpu_reclaim (resolve_strategy s c) = ratio_label_pct_k (label_scale (nc_l_cpu_kind c)) (nc_l_cpu c) /\
+  s_mem_reclaim (resolve_strategy s c) = ratio_label_pct_k (label_scale (nc_l_mem_kind c)) (nc_l_mem c).
+Proof.
+  intros H1 H2. unfold resolve_strategy, label_pct. cbn [s_cpu_reclaim s_mem_reclaim].
+  apply Z.ltb_lt in H1. apply Z.ltb_lt in H2. rewrite H1, H2. split; reflexivity.
+Qed.
+
+(* int64(v*100) ROUNDS DOWN: the percent taken from a label never exceeds the ratio written on the
+   node, and loses less than one percent — checked exhaustively (by computation in the kernel, on the exact
+   binary64 model) for every label up to 10.0 (1000 %) with 1, 2, 3 or 4 decimals *)
+Definition label_ok (scale h : Z) : bool :=
+  let p := ratio_label_pct_k scale h in (scale * p <=? 100 * h) && (100 * h <=? scale * (p + 1)).
+Fixpoint all_upto (f : Z -> bool) (n : nat) : bool :=
+  match n with O => f 0 | S k => f (Z.of_nat n) && all_upto f k end.
+Lemma all_upto_spec f n : all_upto f n = true -> forall h, 0 <= h <= Z.of_nat n -> f h = true.
+Proof.
+  induction n as [|k IH]; intros H h Hh.
+  - cbn in H. assert (h = 0) as -> by lia. exact H.
+  - cbn [all_upto] in H. apply andb_true_iff in H. destruct H as [H1 H2].
+    destruct (Z.eq_dec h (Z.of_nat (S k))) as [->|Hne]; [exact H1|]. apply IH; [exact H2|lia].
+Qed.
+Lemma label_ok_10 : all_upto (label_ok 10) 100 = true. Proof. vm_compute. reflexivity. Qed.
+Lemma label_ok_100 : all_upto (label_ok 100) 1000 = true. Proof. vm_compute. reflexivity. Qed.
+Lemma label_ok_1000 : all_upto (label_ok 1000) 10000 = true. Proof. vm_compute. reflexivity. Qed.
+Lemma label_ok_10000 : all_upto (label_ok 10000) 100000 = true. Proof. vm_compute. reflexivity. Qed.
+Lemma label_rounds_down kind h :
+  0 < label_scale kind -> 0 <= h <= 10 * label_scale kind ->
+  let p := ratio_label_pct_k (label_scale kind) h in
+  label_scale kind * p <= 100 * h <= label_scale kind * (p + 1).
+Proof.
+  intros Hs Hh. cbv zeta.
+  assert (H : label_ok (label_scale kind) h = true).
+  { unfold label_scale in *.
+    destruct (kind =? 1); [apply (all_upto_spec _ _ label_ok_100); cbn; lia|].
+    destruct ((kind =? 4) || (kind =? 5)); [apply (all_upto_spec _ _ label_ok_1000); cbn; lia|].
+    destruct (kind =? 6); [apply (all_upto_spec _ _ label_ok_10); cbn; lia|].
+    destruct (kind =? 7); [apply (all_upto_spec _ _ label_ok_10000); cbn; lia|lia]. }
+  unfold label_ok in H. apply andb_true_iff in H. destruct H as [H1 H2].
+  apply Z.leb_le in H1. apply Z.leb_le in H2. lia.
+Qed.
+
 Lemma resolve_bad_annotation_ignored s c :
   (nc_anno c =? 1) = false ->
   resolve_strategy s c
